@@ -293,6 +293,12 @@ func init() {
 				}
 				return 15000
 			}, Run: c10ParsedTree},
+			{Name: "patch-operators", N: func(tier string) uint64 {
+				if tier == "thorough" {
+					return 300000
+				}
+				return 4000
+			}, Run: c10PatchOperators},
 			{Name: "patch-compile", N: func(tier string) uint64 {
 				if tier == "thorough" {
 					return 400000
